@@ -1,12 +1,14 @@
 """C30 Each run yields exactly one recent run and one plot log.
 
-Proof half: OPM.Properties.C30 — for every history over {register, disconnect, RunStartedMsg r, RunStoppedMsg r}:
-never two PlotLogs rows or two RecentRuns rows for one run id; exactly one plot log from the first handled start on,
-exactly one recent run (and plot log) from the end of the run on; the run survives disconnect + re-registration.
-The model is the code WITH fixes/C30-one-record-per-run.diff (guarded inserts in create_plot_log / store_recent_run);
-the Lean file also carries the unguarded variant and its decided counter-examples.
+Proof half: OPM.Properties.C30 — for every history over {register e, disconnect e, RunStartedMsg e r, RunStoppedMsg e r}
+(any number of engines e, any run ids r): never two PlotLogs rows or two RecentRuns rows for one run id; exactly one
+plot log from the first handled start on, exactly one recent run (and plot log) from the end of the run on; a run that
+is open across a disconnect (whatever arrives meanwhile) is given back by the re-registration and recorded at its end.
+The model is the code WITH fixes/C30-one-record-per-run.diff (guarded inserts in create_plot_log / store_recent_run;
+committed in /repo); the Lean file also carries the unguarded variant and its decided counter-examples.
 Tie half: the real aggregator (message handlers, in-memory SQLite) against the model, op by op, on all short
-histories and on generated engine-like histories with duplicates, resends, reorderings and disconnects.
+histories (one and two engines) and on generated engine-like histories with duplicates, resends, reorderings,
+disconnects and a second engine.
 """
 from __future__ import annotations
 
@@ -15,36 +17,49 @@ import itertools
 from vp.core import Check, Failure, load_corpus
 
 META = dict(
-    level_text="Lean 4 theorems over all message histories of one engine (register, disconnect, RunStartedMsg, "
-               "RunStoppedMsg with arbitrary run ids, in any order and multiplicity): no run id ever has two PlotLogs rows "
+    level_text="Lean 4 theorems over all message histories (register, disconnect, RunStartedMsg, RunStoppedMsg of any number "
+               "of engines with arbitrary run ids, in any order and multiplicity): no run id ever has two PlotLogs rows "
                "or two RecentRuns rows; after the first handled RunStartedMsg a run has exactly one plot log for ever; "
                "after the run ended (RunStoppedMsg or superseded by another start) it has exactly one recent-run record and "
-               "one plot log for ever; a disconnect + re-registration gives the run back without new rows. Model tied to "
+               "one plot log for ever; a run open at a disconnect is restored by the re-registration whatever arrives in "
+               "between (the engine's own messages are dropped, other engines go on) and is recorded at its end. Model tied to "
                "the aggregator's handlers + repositories (in-memory SQLite) by differential execution, exhaustive over all "
-               "histories up to length 3/5 over 6 symbols (quick: also all of length 4 that start with register) plus generated histories.",
+               "one-engine histories up to length 3/5 over 6 symbols (quick: also length 4 after register) and all two-engine "
+               "histories up to length 2/3 over 12 symbols, plus generated histories.",
     level_note="The model follows the code with fixes/C30-one-record-per-run.diff applied (8 added lines: create_plot_log and "
-               "store_recent_run look the run id up first). On the unrepaired tree the check reports the defect (second plot "
-               "log on a duplicated/resent RunStartedMsg, second recent run when start+stop are resent after the stop). "
-               "Trusted: Lean kernel, the harness, SQLite/SQLAlchemy as row lists. One engine id; registration is the accepted "
-               "path; DB writes succeed; an aggregator process restart without shutdown() is outside the histories.",
+               "store_recent_run look the run id up first). Trusted: Lean kernel, the harness, SQLite/SQLAlchemy as row lists. "
+               "Registration is the accepted path; DB writes succeed; an aggregator process restart without shutdown() is "
+               "outside the histories. Recorded, not claimed (decided examples at the end of Properties/C30.lean): (1) a "
+               "RunStoppedMsg that arrives only while the engine is unregistered is dropped (error reply); the run stays open "
+               "and is recorded at the next handled stop / superseding start after re-registration — if none ever arrives it has "
+               "no recent-run record; (2) the tables and the guards are keyed by run id only: a run id used by two engines "
+               "(engine run ids are uuid4) is merged into the first rows — one row per run id holds, a row of its own for the "
+               "second engine's run does not. The oracle keeps its own ledger of open runs (from the messages and the replies "
+               "only) and counts rows per run id.",
     technique="Lean 4 proof (state invariant by induction over the history) + differential correspondence",
 )
 MODULE = "OPM.Properties.C30"
 REQUIRED = ["OPM.C30.at_most_one", "OPM.C30.started_run_has_exactly_one_plot_log",
             "OPM.C30.stopped_run_has_exactly_one_of_each", "OPM.C30.superseded_run_has_exactly_one_of_each",
-            "OPM.C30.records_are_paired", "OPM.C30.run_survives_reconnect", "OPM.C30.unrepaired_counterexample"]
+            "OPM.C30.records_are_paired", "OPM.C30.run_survives_reconnect", "OPM.C30.unrepaired_counterexample",
+            "OPM.C30.unregistered_messages_are_dropped", "OPM.C30.other_engines_untouched",
+            "OPM.C30.run_restored_after_disconnect", "OPM.C30.run_open_across_disconnect_is_recorded"]
+ENGINES = 2     # the driver prints the engines 0 and 1
 
 
 def rid(k: int) -> str:
     return f"run-{k}"
 
 
+def norm(op) -> list:
+    """op = [kind, engine, (run)]; the older one-engine form [kind, (run)] means engine 0"""
+    if op[0] in ("register", "disconnect"):
+        return [op[0], op[1] if len(op) > 1 else 0]
+    return [op[0], 0, op[1]] if len(op) == 2 else [op[0], op[1], op[2]]
+
+
 def lines_of(case, prefix: str = "") -> list[str]:
-    return [prefix + "\t".join(str(x) for x in op) for op in case["ops"]]
-
-
-def _ords(ids: list[str]) -> str:
-    return "-" if not ids else ",".join(x.split("-")[1] for x in ids)
+    return [prefix + "\t".join(str(x) for x in norm(op)) for op in case["ops"]]
 
 
 def execute(case) -> tuple[list[str], list[dict]]:
@@ -53,30 +68,35 @@ def execute(case) -> tuple[list[str], list[dict]]:
     import openpectus.protocol.aggregator_messages as AM
     h = AggHarness()
     out, obs = [], []
-    for op in case["ops"]:
-        before = h.current_run_id()
-        was_registered = h.engine_data() is not None
+
+    def rows(rs) -> str:
+        return "-" if not rs else ",".join(f"{h.engine_index(e)}:{r.split('-')[1]}" for (e, r) in rs)
+
+    for raw in case["ops"]:
+        op = norm(raw)
+        e = op[1]
         if op[0] == "register":
-            rep = h.register()
+            rep = h.register(e)
             kind = "ok" if rep.success else "refused"
         elif op[0] == "disconnect":
-            h.disconnect()
+            h.disconnect(e)
             kind = "ok"
         elif op[0] == "start":
-            rep = h.run_started(rid(op[1]))
+            rep = h.run_started(rid(op[2]), engine=e)
             kind = "not-registered" if isinstance(rep, AM.ErrorMessage) else "ok"
         elif op[0] == "stop":
-            rep = h.run_stopped(rid(op[1]))
+            rep = h.run_stopped(rid(op[2]), engine=e)
             kind = "not-registered" if isinstance(rep, AM.ErrorMessage) else "ok"
         else:
             raise ValueError(op)
-        reg = h.engine_data() is not None
-        cur = h.current_run_id()
-        pls, rrs = h.plot_log_run_ids(), h.recent_run_ids()
-        out.append(f"{kind}\treg={'1' if reg else '0'}\trun={'-' if cur is None else cur.split('-')[1]}"
-                   f"\tplotlogs={_ords(pls)}\trecentruns={_ords(rrs)}")
-        obs.append({"op": op, "handled": kind == "ok" and was_registered, "active_before": before, "plotlogs": pls,
-                    "recentruns": rrs})
+        pls, rrs = h.plot_log_rows(), h.recent_run_rows()
+        engines = []
+        for i in range(ENGINES):
+            cur = h.current_run_id(i)
+            engines.append(f"reg{i}={'1' if h.engine_data(i) is not None else '0'}\trun{i}={'-' if cur is None else cur.split('-')[1]}")
+        out.append(f"{kind}\t" + "\t".join(engines) + f"\tplotlogs={rows(pls)}\trecentruns={rows(rrs)}")
+        # for the oracle: the message, the reply it got, the run_id columns of the two tables
+        obs.append({"op": op, "reply_ok": kind == "ok", "plotlogs": [r for (_, r) in pls], "recentruns": [r for (_, r) in rrs]})
     return out, obs
 
 
@@ -85,13 +105,18 @@ def impl(case) -> list[str]:
 
 
 # ------------------------------------------------------------------------------------------------
-# property oracle on the implementation's tables (independent of the Lean model)
+# property oracle on the implementation's tables.  Independent of the Lean model AND of the implementation's own
+# bookkeeping: which run is open at an engine is the oracle's own ledger, kept from the messages and their replies:
+#   a RunStartedMsg r answered with success opens r (and ends the run that was open before, if it is another one);
+#   a RunStoppedMsg answered with success ends the open run; disconnect / register do not touch the ledger.
 
 def oracle(case, obs: list[dict]) -> list[Failure]:
     fails: list[Failure] = []
     seen: set[str] = set()
     prev_pl: list[str] = []
     prev_rr: list[str] = []
+    open_run: dict[int, str | None] = {}
+    away: dict[int, bool] = {}          # a disconnect happened since the open run was started
 
     def once(key: str, detail: str):
         if key not in seen:
@@ -100,23 +125,40 @@ def oracle(case, obs: list[dict]) -> list[Failure]:
 
     for i, o in enumerate(obs):
         op = o["op"]
+        e = op[1]
         site = {"start": "on-run-started", "stop": "on-run-stopped"}.get(op[0], "on-" + op[0])
         for r in set(o["plotlogs"]):
             if o["plotlogs"].count(r) > 1 and prev_pl.count(r) < o["plotlogs"].count(r):
-                how = ("duplicate-of-active-run" if o["active_before"] == r else
-                       "run-already-stored" if r in prev_rr else "other")
+                how = ("duplicate-of-active-run" if open_run.get(e) == r else
+                       "run-already-stored" if r in prev_rr else
+                       "run-open-at-other-engine" if r in open_run.values() else "other")
                 once(f"second-plot-log:{site}:{how}",
                      f"op #{i} {op}: run {r} now has {o['plotlogs'].count(r)} PlotLogs rows")
         for r in set(o["recentruns"]):
             if o["recentruns"].count(r) > 1 and prev_rr.count(r) < o["recentruns"].count(r):
                 once(f"second-recent-run:{site}", f"op #{i} {op}: run {r} now has {o['recentruns'].count(r)} RecentRuns rows")
-        if op[0] == "start" and o["handled"] and rid(op[1]) not in o["plotlogs"]:
-            once("no-plot-log-for-started-run", f"op #{i} {op}: handled, but run {rid(op[1])} has no PlotLogs row")
-        if op[0] == "stop" and o["handled"] and o["active_before"] is not None and o["active_before"] not in o["recentruns"]:
-            once("no-recent-run-for-ended-run", f"op #{i} {op}: run {o['active_before']} ended without a RecentRuns row")
-        if op[0] == "start" and o["handled"] and o["active_before"] not in (None, rid(op[1])) \
-                and o["active_before"] not in o["recentruns"]:
-            once("no-recent-run-for-superseded-run", f"op #{i} {op}: run {o['active_before']} was replaced without a RecentRuns row")
+        if op[0] == "disconnect" and open_run.get(e) is not None:
+            away[e] = True
+        if op[0] == "start" and o["reply_ok"]:
+            r = rid(op[2])
+            if r not in o["plotlogs"]:
+                once("no-plot-log-for-started-run", f"op #{i} {op}: handled, but run {r} has no PlotLogs row")
+            ended = open_run.get(e)
+            if ended is not None and ended != r and ended not in o["recentruns"]:
+                once("no-recent-run-for-run-open-across-disconnect" if away.get(e) else "no-recent-run-for-superseded-run",
+                     f"op #{i} {op}: run {ended} (opened by a handled RunStartedMsg of engine {e}) was replaced without "
+                     f"a RecentRuns row")
+            if ended != r:
+                away[e] = False
+            open_run[e] = r
+        if op[0] == "stop" and o["reply_ok"]:
+            ended = open_run.get(e)
+            if ended is not None and ended not in o["recentruns"]:
+                once("no-recent-run-for-run-open-across-disconnect" if away.get(e) else "no-recent-run-for-ended-run",
+                     f"op #{i} {op}: run {ended} (opened by a handled RunStartedMsg of engine {e}) ended without a "
+                     f"RecentRuns row")
+            open_run[e] = None
+            away[e] = False
         prev_pl, prev_rr = o["plotlogs"], o["recentruns"]
     return fails
 
@@ -124,8 +166,15 @@ def oracle(case, obs: list[dict]) -> list[Failure]:
 # ------------------------------------------------------------------------------------------------
 # generators
 
+def _syms(engines: int, runs: int) -> list[list]:
+    out = []
+    for e in range(engines):
+        out += [["register", e], ["disconnect", e]] + [["start", e, r] for r in range(runs)] + [["stop", e, r] for r in range(runs)]
+    return out
+
+
 def gen_exhaustive(ctx: Check) -> list[dict]:
-    syms = [["register"], ["disconnect"], ["start", 0], ["start", 1], ["stop", 0], ["stop", 1]]
+    syms = _syms(1, 2)
     maxlen = ctx.n(3, 5)
     cases = []
     for k in range(0, maxlen + 1):
@@ -133,28 +182,56 @@ def gen_exhaustive(ctx: Check) -> list[dict]:
             cases.append({"ops": [list(s) for s in seq]})
     if ctx.tier == "quick":      # one step further for the histories that start with the registration
         for seq in itertools.product(syms, repeat=maxlen):
-            cases.append({"ops": [["register"]] + [list(s) for s in seq]})
+            cases.append({"ops": [["register", 0]] + [list(s) for s in seq]})
     for _ in range(ctx.n(200, 3000)):           # longer ones, sampled
-        cases.append({"ops": [["register"]] + [list(ctx.rng.choice(syms)) for _ in range(ctx.rng.randrange(maxlen + 1, maxlen + 5))]})
+        cases.append({"ops": [["register", 0]] + [list(ctx.rng.choice(syms)) for _ in range(ctx.rng.randrange(maxlen + 1, maxlen + 5))]})
+    # two engines, run ids shared between them (the tables are keyed by run id only)
+    syms2 = _syms(2, 2)
+    len2 = ctx.n(2, 3)
+    for k in range(1, len2 + 1):
+        for seq in itertools.product(syms2, repeat=k):
+            cases.append({"ops": [list(s) for s in seq]})
+            if k == len2:
+                cases.append({"ops": [["register", 0], ["register", 1]] + [list(s) for s in seq]})
     return cases
 
 
-def gen_history(ctx: Check) -> dict:
-    """what an engine does (register, runs one after the other with fresh ids), then perturbed the way the transport
-    can: messages delivered twice, resent later, swapped with a neighbour, dropped; connection lost and re-established"""
+def _engine_life(ctx: Check, e: int, first_run: int) -> list[list]:
     rng = ctx.rng
-    ops: list[list] = [["register"]]
-    k = rng.randrange(0, 3)
+    ops: list[list] = [["register", e]]
+    k = first_run
     for _ in range(rng.randrange(1, 5)):
-        ops.append(["start", k])
+        ops.append(["start", e, k])
         if rng.random() < 0.35:
-            ops += [["disconnect"], ["register"]]
+            ops.append(["disconnect", e])
+            if rng.random() < 0.3:       # the engine goes on while it is away: its messages reach nobody
+                ops.append(rng.choice([["stop", e, k], ["start", e, k], ["disconnect", e]]))
+                ctx.count("message-while-disconnected")
+            ops.append(["register", e])
             ctx.count("disconnect-during-run")
         if rng.random() < 0.85:
-            ops.append(["stop", k])
+            ops.append(["stop", e, k])
         else:
             ctx.count("stop-never-sent")
         k += 1
+    return ops
+
+
+def gen_history(ctx: Check) -> dict:
+    """what engines do (register, runs one after the other with fresh ids), then perturbed the way the transport
+    can: messages delivered twice, resent later, swapped with a neighbour, dropped; connection lost and re-established.
+    40 % of the histories have a second engine whose messages are interleaved (5 %: it reuses run ids of the first)."""
+    rng = ctx.rng
+    ops = _engine_life(ctx, 0, rng.randrange(0, 3))
+    if rng.random() < 0.4:
+        shared = rng.random() < 0.125
+        other = _engine_life(ctx, 1, rng.randrange(0, 3) if shared else 10 + rng.randrange(0, 3))
+        ctx.count("second-engine:shared-run-ids" if shared else "second-engine:own-run-ids")
+        merged, a, b = [], list(ops), list(other)
+        while a or b:
+            src = a if (a and (not b or rng.random() < 0.5)) else b
+            merged.append(src.pop(0))
+        ops = merged
     for _ in range(rng.randrange(0, 5)):
         if not ops:
             break
@@ -171,7 +248,7 @@ def gen_history(ctx: Check) -> dict:
             ops[i], ops[i + 1] = ops[i + 1], ops[i]
             ctx.count("perturb:swap")
         elif r < 0.90:
-            ops.insert(i, ["disconnect"])
+            ops.insert(i, ["disconnect", ops[i][1]])
             ctx.count("perturb:stray-disconnect")
         else:
             del ops[i]
@@ -182,15 +259,15 @@ def gen_history(ctx: Check) -> dict:
 
 def gen_malformed(ctx: Check) -> dict:
     rng = ctx.rng
-    syms = [["register"], ["disconnect"]] + [["start", i] for i in range(4)] + [["stop", i] for i in range(4)]
+    syms = _syms(2 if rng.random() < 0.4 else 1, 4)
     ctx.count("history:uniform-random")
     return {"ops": [list(rng.choice(syms)) for _ in range(rng.randrange(1, ctx.n(14, 30)))]}
 
 
 def nontrivial(case, out) -> bool:
     """some run got a plot log and some message was a duplicate / resend of an earlier one or a disconnect happened"""
-    ops = [tuple(o) for o in case["ops"]]
-    return any("plotlogs=-" not in ln for ln in out) and (len(set(ops)) < len(ops) or ("disconnect",) in ops)
+    ops = [tuple(norm(o)) for o in case["ops"]]
+    return any("plotlogs=-" not in ln for ln in out) and (len(set(ops)) < len(ops) or any(o[0] == "disconnect" for o in ops))
 
 
 def check_cases(ctx: Check, stream: str, cases: list[dict], selftest: bool) -> None:
@@ -211,13 +288,16 @@ def check_cases(ctx: Check, stream: str, cases: list[dict], selftest: bool) -> N
 
 def run(ctx: Check) -> int:
     ctx.prove(MODULE, REQUIRED)
-    ctx.rule = ("cases = message histories of one engine against a fresh database. Exhaustive: every history up to length "
+    ctx.rule = ("cases = message histories against an empty database. Exhaustive: every one-engine history up to length "
                 "3 (quick; plus all of length 4 starting with register) / 5 (thorough) over {register, disconnect, start r, "
-                "stop r | r in 0..1}, longer ones sampled. Generated: an engine's "
-                "message sequence (register; runs with fresh ids; disconnect+register inside 35 % of runs; 15 % of stops "
-                "never sent) perturbed by duplicates, later resends, swaps, stray disconnects, drops; plus 15 % uniformly "
-                "random op sequences over 4 run ids (malformed: messages before registration, stops of unknown runs, ...). "
-                "Non-trivial = a plot log exists and the history contains a repeated message or a disconnect.")
+                "stop r | r in 0..1}, longer ones sampled; every two-engine history up to length 2 (quick) / 3 (thorough) over "
+                "the 12 symbols of engines 0 and 1 with shared run ids 0..1, the longest also after [register 0, register 1]. "
+                "Generated: engine message sequences (register; runs with fresh ids; disconnect+register inside 35 % of runs, "
+                "30 % of those with a message sent while away; 15 % of stops never sent; 40 % with an interleaved second "
+                "engine, 1 in 8 of those reusing run ids) perturbed by duplicates, later resends, swaps, stray disconnects, "
+                "drops; plus 15 % uniformly random op sequences over 4 run ids (malformed: messages before registration, "
+                "stops of unknown runs, ...). Non-trivial = a plot log exists and the history contains a repeated message or "
+                "a disconnect.")
     corpus = load_corpus(ctx.id)
     ex = gen_exhaustive(ctx)
     gen = []
@@ -234,8 +314,9 @@ def run(ctx: Check) -> int:
                          f"fixes/C30-one-record-per-run.diff (the repair is not applied to this tree)" if same else
                          "the disagreeing histories match neither the repaired nor the unrepaired model")
     ctx.exhaustive = True
-    ctx.extra["exhaustive_scope"] = f"all histories of length <= {ctx.n(3, 5)} over 6 symbols; longer ones are sampled"
-    ctx.assumptions = ["one engine id; run ids are opaque strings (model: naturals)",
+    ctx.extra["exhaustive_scope"] = (f"all one-engine histories of length <= {ctx.n(3, 5)} over 6 symbols and all two-engine "
+                                     f"histories of length <= {ctx.n(2, 3)} over 12 symbols; longer ones are sampled")
+    ctx.assumptions = ["engine ids and run ids are opaque strings (model: naturals); the harness uses two engine ids",
                        "registration takes the accepted path (secret ok, no websocket connected under the id, same version)",
                        "database writes succeed (the except-branches around store_recent_run are not exercised)",
                        "SQLite/SQLAlchemy behave as append-only row lists for the queries used"]
